@@ -64,13 +64,13 @@ Proof. destruct t; cbn; intros H; try discriminate; auto. Qed.
 
 (* what processing one request does to the record of its type *)
 Lemma srd_record st r out st' :
-  is_wildcard (d_ty r) = false ->
+  requires_names_mod (d_ty r) = false ->
   should_respond_delta st r = (out, st') ->
   (dropped st r = true -> record st' (d_ty r) = record st (d_ty r)) /\
   (dropped st r = false -> forall x, In x (record st' (d_ty r)) <->
      ((In x (record st (d_ty r)) \/ In x (d_sub r) \/ In x (d_init r)) /\ ~ In x (d_unsub r) /\ x <> star)).
 Proof.
-  intros Hw. destruct (nonwildcard_no_mod _ Hw) as [Hm _].
+  intros Hm.
   unfold should_respond_delta, dropped, nack, record. rewrite Hm. cbn [andb].
   destruct (d_err r) as [m|].
   - destruct (st (d_ty r)) as [w|] eqn:Es; intros [= <- <-]; (split; [intros _|discriminate]).
@@ -98,6 +98,56 @@ Lemma In_client_apply x S subs inits unsubs :
   In x (client_apply S subs inits unsubs) <-> (In x S \/ In x subs \/ In x inits) /\ ~ In x unsubs.
 Proof.
   unfold client_apply. rewrite filter_In, !in_app_iff, negb_true_iff, mem_false. tauto.
+Qed.
+
+(* ------------------------------------------------------------------ wildcard types *)
+
+(* types for which pushDeltaXds hands sendDelta the new resource names (wildcard types that do not
+   manage names in the generator): every sent response overwrites the record with exactly the names
+   of the resources generated for it - the record there means "what the client was last sent" *)
+Lemma send_delta_sets_record st t n gen :
+  should_set_watched t = true -> is_debug t = false ->
+  forall x, In x (record (send_delta st t n true (newnames_for t gen)) t) <-> In x gen.
+Proof.
+  intros Hs Hd x. unfold newnames_for, send_delta, record. rewrite Hs, Hd. cbn.
+  rewrite upd_same. cbn. apply In_norm.
+Qed.
+
+(* ... and between two sends a request that is not dropped updates that set by
+   (record + subscribe + initial) - unsubscribe - "*" *)
+Lemma request_updates_record st r out st' :
+  requires_names_mod (d_ty r) = false ->
+  should_respond_delta st r = (out, st') -> dropped st r = false ->
+  forall x, In x (record st' (d_ty r)) <->
+     ((In x (record st (d_ty r)) \/ In x (d_sub r) \/ In x (d_init r)) /\ ~ In x (d_unsub r) /\ x <> star).
+Proof. intros Hm E Hd. exact (proj2 (srd_record st r out st' Hm E) Hd). Qed.
+
+Lemma dropped_keeps_record st r out st' :
+  should_respond_delta st r = (out, st') -> dropped st r = true ->
+  record st' (d_ty r) = record st (d_ty r).
+Proof.
+  unfold should_respond_delta, dropped, nack, record.
+  destruct (d_err r) as [m|].
+  - destruct (st (d_ty r)) as [w|] eqn:Es; intros [= <- <-] _; [rewrite upd_same|rewrite Es]; reflexivity.
+  - destruct (st (d_ty r)) as [w|] eqn:Es; [|discriminate].
+    intros E Hd. rewrite Hd in E. injection E as <- <-. rewrite Es. reflexivity.
+Qed.
+
+(* generator-managed types (Address, Workload) with a wildcard subscription: no names are stored *)
+Lemma wildcard_managed_record_empty st r out st' :
+  requires_names_mod (d_ty r) = true -> d_err r = None ->
+  should_respond_delta st r = (out, st') ->
+  match st (d_ty r) with
+  | None => snd (fst (delta_watched_resources [] r)) = true -> record st' (d_ty r) = []
+  | Some w => wildcard w = true -> dropped st r = false -> record st' (d_ty r) = []
+  end.
+Proof.
+  intros Hm He. unfold should_respond_delta, dropped, record. rewrite He, Hm. cbn [andb].
+  destruct (st (d_ty r)) as [w|] eqn:Es.
+  - intros E Hw Hd. rewrite Hd, Hw in E.
+    destruct (negb (negb (is_nil (d_sub r)) || negb (is_nil (d_unsub r)))); [destruct (always_respond w)|];
+      injection E as <- <-; rewrite upd_same; reflexivity.
+  - destruct (delta_watched_resources [] r) as [[res wc] ch]. cbn. intros [= <- <-] ->. rewrite upd_same. reflexivity.
 Qed.
 
 Section DeltaLoop.
@@ -138,7 +188,7 @@ Proof.
     assert (Hrt : d_ty r = t) by (inversion HF; assumption).
     assert (HFr : Forall (fun m => d_ty m = t) rest) by (inversion HF; assumption).
     destruct (should_respond_delta (x_srv s) r) as [out st'] eqn:Esr.
-    assert (Hwr : is_wildcard (d_ty r) = false) by (rewrite Hrt; exact Hnw).
+    assert (Hwr : requires_names_mod (d_ty r) = false) by (rewrite Hrt; apply (nonwildcard_no_mod _ Hnw)).
     destruct (srd_record _ _ _ _ Hwr Esr) as [Hdrop Happ]. rewrite Hrt in Hdrop, Happ.
     destruct (nonwildcard_no_mod _ Hnw) as [_ Hset].
     assert (Hcore : forall srv'' s2c'', record srv'' t = record st' t ->
@@ -239,6 +289,86 @@ Proof.
 Qed.
 
 End DeltaLoop.
+
+(* ------------------------------------------------------------------ wildcard types, closed loop *)
+
+(* For the types where sendDelta is handed newResourceNames the record is not the client's
+   subscription but this reference set: overwritten by the generated names at every sent response,
+   updated by (set + subscribe + initial) - unsubscribe - "*" at every request that is not dropped,
+   untouched by everything else (dropped requests, client steps, traffic of other types). *)
+Definition answered (o : outcome) : bool := match o with Resp true _ => true | _ => false end.
+
+Definition wnext (t : xds_type) (s : dstate) (l : dlabel) (P : N -> Prop) : N -> Prop :=
+  match l with
+  | DProc n gen sends =>
+    match x_c2s s with
+    | [] => P
+    | r :: _ =>
+      if answered (fst (should_respond_delta (x_srv s) r)) && sends then (fun x => In x gen)
+      else if dropped (x_srv s) r then P else sem_apply r P
+    end
+  | DPush n gen => match x_srv s t with None => P | Some _ => (fun x => In x gen) end
+  | _ => P
+  end.
+
+Fixpoint wrun (t : xds_type) (s : dstate) (ls : list dlabel) (P : N -> Prop) : dstate * (N -> Prop) :=
+  match ls with
+  | [] => (s, P)
+  | l :: ls' => wrun t (dstep t s l) ls' (wnext t s l P)
+  end.
+
+Section WildcardLoop.
+Variable t : xds_type.
+Hypothesis Hset : should_set_watched t = true.
+Hypothesis Hdbg : is_debug t = false.
+
+Lemma set_watched_no_mod : requires_names_mod t = false.
+Proof. unfold should_set_watched in Hset. destruct (requires_names_mod t); [discriminate|reflexivity]. Qed.
+
+Definition winv (s : dstate) (P : N -> Prop) : Prop :=
+  Forall (fun m => d_ty m = t) (x_c2s s) /\ (forall x, In x (record (x_srv s) t) <-> P x).
+
+Lemma wstep_inv s P l : winv s P -> winv (dstep t s l) (wnext t s l P).
+Proof.
+  intros [HF HP]. destruct l as [subs unsubs inits|e subs unsubs|n gen sends|n gen|o]; unfold dstep, wnext.
+  - split; [|exact HP]. cbn. apply Forall_app. split; [exact HF|constructor; [reflexivity|constructor]].
+  - destruct (x_s2c s) as [|n rest]; [split; assumption|]. split; [|exact HP]. cbn.
+    apply Forall_app. split; [exact HF|constructor; [reflexivity|constructor]].
+  - destruct (x_c2s s) as [|r rest] eqn:Ec; [split; [rewrite Ec|]; assumption|].
+    assert (Hrt : d_ty r = t) by (inversion HF; assumption).
+    assert (HFr : Forall (fun m => d_ty m = t) rest) by (inversion HF; assumption).
+    destruct (should_respond_delta (x_srv s) r) as [out st'] eqn:Esr. cbn [fst].
+    assert (Hm : requires_names_mod (d_ty r) = false) by (rewrite Hrt; apply set_watched_no_mod).
+    assert (Hmid : forall x, In x (record st' t) <-> (if dropped (x_srv s) r then P else sem_apply r P) x).
+    { intros x. destruct (dropped (x_srv s) r) eqn:Ed.
+      - pose proof (dropped_keeps_record _ _ _ _ Esr Ed) as H. rewrite Hrt in H. rewrite H. apply HP.
+      - pose proof (request_updates_record _ _ _ _ Hm Esr Ed x) as H. rewrite Hrt in H. rewrite H.
+        unfold sem_apply. rewrite (HP x). tauto. }
+    destruct out as [|b subs0|]; cbn [answered andb]; try (split; [exact HFr|exact Hmid]).
+    destruct b; cbn [answered andb]; [|split; [exact HFr|exact Hmid]].
+    destruct sends; [|split; [exact HFr|exact Hmid]].
+    split; [exact HFr|]. cbn. apply send_delta_sets_record; assumption.
+  - destruct (x_srv s t) eqn:Ew; [|split; assumption].
+    split; [exact HF|]. cbn. apply send_delta_sets_record; assumption.
+  - destruct (ty_eqb (op_ty o) t) eqn:Et; [split; assumption|].
+    assert (Hne : op_ty o <> t) by (intros E; apply ty_eqb_eq in E; rewrite E in Et; discriminate).
+    split; [exact HF|]. cbn. intros x. rewrite (same_sub_record _ _ _ (step_other (x_srv s) o t Hne)). apply HP.
+Qed.
+
+Theorem record_wildcard_delta st0 cn0 ls :
+  st0 t = None ->
+  let sp := wrun t (dinit st0 cn0) ls (fun _ => False) in
+  forall x, In x (record (x_srv (fst sp)) t) <-> snd sp x.
+Proof.
+  intros H0.
+  assert (Hgen : forall ls s P, winv s P -> winv (fst (wrun t s ls P)) (snd (wrun t s ls P))).
+  { induction ls0 as [|l ls0 IH]; intros s P H; cbn; [exact H|]. apply IH. apply wstep_inv. exact H. }
+  assert (Hi : winv (dinit st0 cn0) (fun _ => False)).
+  { split; [constructor|]. intros x. unfold record, dinit. cbn. rewrite H0. cbn. tauto. }
+  intros sp. exact (proj2 (Hgen ls _ _ Hi)).
+Qed.
+
+End WildcardLoop.
 
 (* K13: with changes piggybacked on ACKs the full statement is false - a push overtakes the ACK *)
 Definition k13_schedule : list dlabel :=
